@@ -56,3 +56,27 @@ Definition gather_prod (lin : vec) (idx : list (list nat)) : vec :=
 Definition dq_appendleft (m : nat) (buf : mat) (x : vec) : mat := firstn m (x :: buf).
 Definition dq_pop (buf : mat) : vec * mat := (last buf [], removelast buf).
 End GenWindows.
+
+(* ---- vocabulary of the dataset loops (datasets/_chaos.py): arrays filled element by element inside `for i in range(a, b)` ---- *)
+Section GenLoops.
+Context {F : Type} `{Num F}.
+Notation vec := (list F).
+Notation mat := (list (list F)).
+(* X[i] = v   (no effect out of bounds: numpy would raise IndexError; the equality lemmas carry the bounds) *)
+Fixpoint vupd (i : nat) (v : F) (l : vec) : vec :=
+  match l with
+  | [] => []
+  | x :: l' => match i with O => v :: l' | S j => x :: vupd j v l' end
+  end.
+(* A[i] = row   and   A[i][j] = v *)
+Fixpoint mupd_row (i : nat) (r : vec) (A : mat) : mat :=
+  match A with
+  | [] => []
+  | x :: A' => match i with O => r :: A' | S j => x :: mupd_row j r A' end
+  end.
+Definition mupd (i j : nat) (v : F) (A : mat) : mat := mupd_row i (vupd j v (nth i A [])) A.
+(* np.sum(y[lo:hi]) on a 1-column array *)
+Definition vslice_sum (y : vec) (lo hi : nat) : F := vsum (firstn (hi - lo) (skipn lo y)).
+(* for i in range(a, b): st = body st i *)
+Definition for_range {St} (a b : nat) (body : St -> nat -> St) (st : St) : St := fold_left body (seq a (b - a)) st.
+End GenLoops.
